@@ -1,6 +1,6 @@
 (* C02 — a guard sees exactly what the previous guard for that key left. *)
 From Coq Require Import List Arith ZArith.
-From LK Require Import AList Model Inv StepInv PropLemmas DropInv Stream.
+From LK Require Import AList Model Inv StepInv PropLemmas DropInv Stream Seq SeqRefine SeqLimit Conc.
 Import ListNotations.
 
 (* vof s k = the value stored for k (None if k has no entry or a valueless placeholder).
@@ -35,6 +35,14 @@ Theorem C02_next_guard_sees_what_was_left : forall c k tr s s' l s'' g v,
   reachable c s -> otrace c s tr s' -> (forall e, In e tr -> ~ touches k e) ->
   step c s' l = ROk s'' (OGuard g k v) -> v = vof s k.
 Proof. intros c k tr s s' l s'' g v H. exact (next_guard_sees_what_was_left c k tr s s' l s'' g v (reachable_inv c s H)). Qed.
+
+(* The same over the histories that explain interleavings (Conc.v): as long as a key is not locked and not acquired,
+   no sequence of calls of the plain map + locked set -- acquisitions, guard operations and releases concerning other
+   keys -- changes its value, and it stays unlocked. *)
+Theorem C02_value_untouched_while_unlocked : forall sp calls sp' os k,
+  spec_acts sp calls = Some (sp', os) -> sp_locked sp k = false -> (forall sh, ~ In (SLock sh k) calls) ->
+  sp_val sp' k = sp_val sp k /\ sp_locked sp' k = false.
+Proof. exact value_untouched_while_unlocked. Qed.
 
 Example C02_witness :
   run (mkCfg true) [LStart 0 (CLock ShAsync 1 None); LResume 0 []; LGuardOp 0 (GInsert 5);
